@@ -132,6 +132,16 @@ impl Driver {
 
     fn post_symbols(&mut self, d: usize) -> u64 {
         let uri = self.docs[d].uri.clone();
+        // a hover over the definition `rev_<id>` of the text sent last: its line is unique to that text, so the answer
+        // is null (another text is current, or the analysis was cancelled) or names exactly this id
+        if let (Some(text), Some(_)) = (self.docs[d].current_text.as_ref(), self.docs[d].current) {
+            let lines = text.lines().count() as u64;
+            if lines >= 4 && self.posted.len() % 2 == 0 {
+                let definition_line = if text.contains("let dep = ") { lines - 4 } else { lines - 3 };
+                let (id, stamp) = self.lsp.post("textDocument/hover", json!({"textDocument": {"uri": uri}, "position": {"line": definition_line, "character": 7}}));
+                self.posted.push((id, stamp, d, "hover"));
+            }
+        }
         let (id, stamp) = self.lsp.post("textDocument/documentSymbol", json!({"textDocument": {"uri": uri}}));
         self.posted.push((id, stamp, d, "documentSymbol"));
         id
@@ -343,11 +353,18 @@ fn drive(cfg: &Cfg, index: u64, rng: &mut Rng, dir: &Path, binary: &Path, stats:
         stats.evaluations += 1;
 
         // (a) answers against what had been sent before the request
-        for (id, stamp, d, _) in &posted {
+        for (id, stamp, d, method) in &posted {
             let doc = &driver.docs[*d];
             let answer = driver.lsp.log.iter().find(|r| r.message.get("method").is_none() && r.message["id"].as_u64() == Some(*id)).map(|r| r.message["result"].clone()).unwrap_or(Value::Null);
             stats.count("lsp_answers");
-            let Some(ids) = symbol_ids(&answer) else {
+            let ids = if *method == "hover" {
+                stats.count("lsp_hover_answers");
+                // "rev_<k> : Unit" in the hover text
+                answer["contents"]["value"].as_str().map(|text| text.split(|c: char| !(c.is_ascii_alphanumeric() || c == '_')).filter_map(|w| w.strip_prefix("rev_")).filter_map(|n| n.parse::<u64>().ok()).collect::<Vec<u64>>())
+            } else {
+                symbol_ids(&answer)
+            };
+            let Some(ids) = ids else {
                 stats.count("lsp_answers_null");
                 continue;
             };
@@ -616,8 +633,13 @@ fn answers_about(lsp: &mut Lsp, open: &[(String, String)]) -> Result<Vec<(String
         let lines = source.lines().count() as u64;
         if lines >= 2 {
             for character in [3u64, 10] {
-                let hover = lsp.request("textDocument/hover", json!({"textDocument": {"uri": uri}, "position": {"line": lines - 2, "character": character}}), QUIET)?;
+                let position = json!({"line": lines - 2, "character": character});
+                let hover = lsp.request("textDocument/hover", json!({"textDocument": {"uri": uri}, "position": position}), QUIET)?;
                 out.push((format!("hover {uri} {}:{character}", lines - 2), hover["result"].clone()));
+                let definition = lsp.request("textDocument/definition", json!({"textDocument": {"uri": uri}, "position": position}), QUIET)?;
+                out.push((format!("definition {uri} {}:{character}", lines - 2), definition["result"].clone()));
+                let references = lsp.request("textDocument/references", json!({"textDocument": {"uri": uri}, "position": position, "context": {"includeDeclaration": true}}), QUIET)?;
+                out.push((format!("references {uri} {}:{character}", lines - 2), references["result"].clone()));
             }
         }
     }
